@@ -62,8 +62,38 @@ pub fn spec(prop: &str, tier: Tier) -> Option<PropSpec> {
                 Batch { engine: "e1", profile: "release", runs: if q { 240_000 } else { 24_000_000 } },
             ],
         },
+        "C04" => PropSpec {
+            id: "C04",
+            level: "exploration",
+            batches: vec![
+                Batch { engine: "e1", profile: "debug", runs: if q { 60_000 } else { 2_000_000 } },
+                Batch { engine: "e1", profile: "release", runs: if q { 140_000 } else { 10_000_000 } },
+            ],
+        },
+        "C08" => PropSpec {
+            id: "C08",
+            level: "exploration",
+            batches: vec![
+                Batch { engine: "e1", profile: "debug", runs: if q { 60_000 } else { 2_000_000 } },
+                Batch { engine: "e1", profile: "release", runs: if q { 140_000 } else { 10_000_000 } },
+            ],
+        },
         _ => return None,
     })
+}
+
+/// Does a violation class belong to the property being checked? A C04/C08 monitor run
+/// also sees crashes that are C01's business; those are not reported under C04/C08.
+pub fn class_belongs(prop: &str, class: &str) -> bool {
+    if class.starts_with("HARNESS-") {
+        return true;
+    }
+    match prop {
+        "C04" => class.starts_with("c04_"),
+        "C08" => class.starts_with("c08_"),
+        "C01" => !class.starts_with("c04_") && !class.starts_with("c08_"),
+        _ => true,
+    }
 }
 
 /// Deterministic: (engine, property, tier, master seed, index) -> Case.
